@@ -101,7 +101,7 @@ type c02StoredBlob struct {
 }
 
 func c02Walk(s *scenario, topic string, part int32, accepted []c02Accepted) ([]c02StoredBlob, string) {
-	segs := s.committedSegments(topic, part, false)
+	segs := s.committedSegments(topic, part, true)
 	sort.Slice(segs, func(i, j int) bool { return segs[i].Base < segs[j].Base })
 	byContent := map[string]int{}
 	for i, a := range accepted {
@@ -325,21 +325,38 @@ func TestVerifC02Seq(t *testing.T) {
 // excluded: not in this property's quantifier).
 func TestVerifC02Conc(t *testing.T) {
 	r := verifkit.Start(t, "C02", "conc")
-	defer r.Finish("2-3 concurrent producers x 1-3 well-formed batches on 1 partition under the deterministic scheduler (gated uploads and offset updates, no faults), one restart at the end; same offset checker on the stored log; distinct = schedule signature; non-trivial = >=2 producers overlapped (>=2 in flight at some step)")
-	n := r.N(300, 5000)
+	defer r.Finish("2-3 concurrent producers x 1-3 well-formed batches on 1 partition under the deterministic scheduler (gated uploads and offset updates); two thirds of the cases also inject <=2 upload faults (fail / fail-after-effect) and <=1 broker crash (before / after the effect of an upload or offset update) followed by a restart; afterwards the stored log (segments that have their index) is walked with every SENT batch as a candidate and checked for unique, increasing, contiguous offsets and ack-base == stored-first-offset; distinct = schedule signature; non-trivial = >=2 producers overlapped (>=2 in flight at some step)",
+		"a batch whose produce was answered with an error or never answered may or may not be in the stored log; if it is, it must still respect the offset invariants")
+	n := r.N(400, 6000)
 	for ci := 0; ci < n; ci++ {
 		rng := r.Rand(ci)
 		cfg := c01Cfg(rng, 2+rng.Intn(2), 1+rng.Intn(3), 1)
 		cfg.FaultBudget = 0
 		cfg.FaultKinds = nil
+		if ci%3 != 0 {
+			cfg.FaultKinds = []outcome{outFailBefore, outFailAfter, outCrashBefore, outCrashAfter}
+			cfg.FaultOn = []string{"upload_segment", "upload_index", "update_offsets"}
+			cfg.FaultBudget = rng.Intn(3)
+			cfg.CrashBudget = rng.Intn(2)
+		}
 		var sig string
 		overlapped := false
 		synctest.Test(t, func(t *testing.T) {
 			s := newScenario(t, cfg)
-			var accepted []c02Accepted
+			byID := map[string]*c02Accepted{}
+			var order []string
+			for _, reqs := range cfg.Actors {
+				for _, rq := range reqs {
+					byID[rq.BatchID] = &c02Accepted{Blob: c02Blob{ID: rq.BatchID, Kind: "wellformed", Bytes: rq.Batch, Frames: []c02Frame{{len(rq.Batch), int32(rq.NRecords - 1), rq.NRecords}}}, Base: -1}
+					order = append(order, rq.BatchID)
+				}
+			}
+			nacks := 0
 			s.onReply = func(s *scenario, res plogRes) {
 				if res.Req.Kind == "produce" && res.Err == "" && !res.NoReply && res.Code == 0 {
-					accepted = append(accepted, c02Accepted{Blob: c02Blob{ID: res.Req.BatchID, Kind: "wellformed", Bytes: res.Req.Batch, Frames: []c02Frame{{len(res.Req.Batch), int32(res.Req.NRecords - 1), res.Req.NRecords}}}, Base: res.Base, Acked: true, Step: res.Step})
+					a := byID[res.Req.BatchID]
+					a.Base, a.Acked, a.Step = res.Base, true, res.Step
+					nacks++
 				}
 			}
 			s.onQuiescent = func(s *scenario) {
@@ -353,19 +370,37 @@ func TestVerifC02Conc(t *testing.T) {
 					overlapped = true
 				}
 			}
-			s.run(&rngChooser{rng: rng})
+			s.run(&rngChooser{rng: rng, faultProb: 0.2})
 			// acks are observed in completion order; offsets must be increasing in APPEND order, which for
 			// concurrent producers is only observable through the stored log: sort by acknowledged base.
-			sort.Slice(accepted, func(i, j int) bool { return accepted[i].Base < accepted[j].Base })
+			var accepted []c02Accepted
+			for _, id := range order {
+				accepted = append(accepted, *byID[id])
+			}
+			sort.SliceStable(accepted, func(i, j int) bool {
+				if accepted[i].Acked != accepted[j].Acked {
+					return accepted[i].Acked
+				}
+				return accepted[i].Base < accepted[j].Base
+			})
 			for i := 1; i < len(accepted); i++ {
-				if accepted[i].Base == accepted[i-1].Base {
+				if accepted[i].Acked && accepted[i-1].Acked && accepted[i].Base == accepted[i-1].Base {
 					r.Violation("two_acks_same_base_offset:wellformed_only", fmt.Sprintf("%s and %s both acknowledged at base offset %d", accepted[i-1].Blob.ID, accepted[i].Blob.ID, accepted[i].Base), map[string]any{"schedule": s.trace})
 				}
 			}
 			if cls, why, stored := c02Check(s, "t", 0, accepted); cls != "" {
+				if s.faults > 0 || s.crashes > 0 {
+					cls += ":after_s3_fault_or_crash"
+				}
 				r.Violation(cls, why, map[string]any{"config": c01CfgSummary(cfg), "schedule": s.trace, "stored_log": stored})
 			}
-			r.Count("acks", int64(len(accepted)))
+			r.Count("acks", int64(nacks))
+			if s.faults > 0 {
+				r.Count("cases_with_upload_fault", 1)
+			}
+			if s.crashes > 0 {
+				r.Count("cases_with_crash", 1)
+			}
 			s.teardown()
 			sig = traceSig(s.trace)
 		})
@@ -376,6 +411,8 @@ func TestVerifC02Conc(t *testing.T) {
 		}
 	}
 	r.Floor("acks", 100)
+	r.Floor("cases_with_upload_fault", 20)
+	r.Floor("cases_with_crash", 20)
 }
 
 var _ = kbatch.Decode
